@@ -457,8 +457,9 @@ func c19RunX(e *Env, wide bool, sw *c19SweepCase, park bool) {
 				}
 				m.AVPs = []RefAVP{{Code: avpSimOctets, Data: marker(int(id), k, 24+size, byte(id)*16+byte(k))}}
 				cm := c19Msg{ref: m, bytes: m.Bytes(), rc: []uint32{2001, 0, 3004, 5012, 0xffffffff}[t.Draw(5)]}
-				if !wide && !bulk && t.Chance(1, 8) {
-					// a message that is all header (Message-Length 20)
+				if !bulk && t.Chance(1, 8) {
+					// a message that is all header (Message-Length 20); its hop-by-hop id labels it
+					m.HbH = uint32(1000*int(id) + k + 1)
 					m.AVPs = nil
 					cm = c19Msg{ref: m, bytes: m.Bytes(), rc: 2001}
 					e.Probe("header-only-message")
